@@ -7,7 +7,13 @@ export CARGO_NET_OFFLINE=true
 head=$(git -C /repo rev-parse HEAD)
 git -C "$wt" checkout -q -- . ; git -C "$wt" clean -fdq -e target; git -C "$wt" checkout -q --detach "$head" || exit 2
 touches_grammar=$(grep -c "grammar.abnf\|aut.cbor" "$d/patch.diff")
-run_demo() { cp "$d/demo.rs" "$wt/crates/core/tests/seed_demo.rs"; mkdir -p "$wt/crates/core/tests"; ( cd "$wt" && cargo test -p iref-core --offline --features serde,data --test seed_demo >"$d/demo_$1.log" 2>&1 ); rc=$?; rm -f "$wt/crates/core/tests/seed_demo.rs"; return $rc; }
+if grep -q "iref_macros\|iref::\(uri\|iri\|uri_ref\|iri_ref\)!\|features macros\|use iref::" "$d/demo.rs"; then top=1; else top=0; fi
+run_demo() {
+	if [ "$top" = 1 ]; then
+		mkdir -p "$wt/tests"; cp "$d/demo.rs" "$wt/tests/seed_demo.rs"
+		( cd "$wt" && cargo test --offline --features macros --test seed_demo >"$d/demo_$1.log" 2>&1 ); rc=$?; rm -f "$wt/tests/seed_demo.rs"; return $rc
+	fi
+	mkdir -p "$wt/crates/core/tests"; cp "$d/demo.rs" "$wt/crates/core/tests/seed_demo.rs"; ( cd "$wt" && cargo test -p iref-core --offline --features serde,data --test seed_demo >"$d/demo_$1.log" 2>&1 ); rc=$?; rm -f "$wt/crates/core/tests/seed_demo.rs"; return $rc; }
 mkdir -p "$wt/crates/core/tests"
 [ "$touches_grammar" != 0 ] && ( cd "$wt" && cargo clean -p iref-core --offline >/dev/null 2>&1 )
 if run_demo without; then a=pass; else a=fail; fi
